@@ -970,7 +970,18 @@ def c06():
     sw = core.sweep_campaign("sweep", ranges, wd)
     res.append(("sweep", sw))
     exhaustive = core.tier() == "thorough"
-    core.finish("C06", LEVEL, res, None, t0,
+    # design level: the layout computation as the code performs it (FormatImpl) on a grid of requests around every threshold
+    r = core.mc_run("MC_FormatImpl", "SPECIFICATION Spec\nCONSTANT Deep = %s\nINVARIANT ValidInv\nINVARIANT DefaultInv\nCHECK_DEADLOCK FALSE\n" % ("TRUE" if core.tier() == "thorough" else "FALSE"),
+                    wd, "formatimpl", workers=8, xmx="8g", timeout=6000)
+    if not r["ok"]:
+        raise core.ToolError("MC_FormatImpl failed:\n" + r["out_tail"])
+    drift = [t for t in res[0][1].notes if str(t[0]).startswith("B.")]
+    mc = {"spec": "FormatImpl", "states": r["states"], "distinct": r["distinct"], "requests_enumerated": r["distinct"], "wall": r["wall"], "ok": True,
+          "invariants": ["ValidInv: an accepted request gets a coherent layout of the requested width whose table holds every cluster", "DefaultInv: defaults from 42 sectors succeed"],
+          "impl_model_conformance": {"formats": res[0][1].events, "drift": len(drift), "drift_samples": [list(t) for t in drift[:4]]}}
+    if drift:
+        print("NOTE: FormatImpl no longer describes the code on %d formats (model drift, not a violation): %s" % (len(drift), drift[:3]))
+    core.finish("C06", LEVEL, res, mc, t0,
                 "format requests: default options at every sector count 0..129 and at every threshold of the sizing heuristics and FAT-type limits "
                 "(+-0,1,2 sectors, +- one cluster), an option grid (sector 512..32768, cluster none/512..1M, 1-2 FATs, root entries, forced widths), exact "
                 "cluster-count limits, labels/ids/media, and a random grid; each formatted image is decoded independently and mounted, TLC evaluates "
